@@ -9,7 +9,7 @@ import (
 )
 
 func c06Weights() hWeights {
-	return hWeights{deliver: 46, ack: 22, save: 12, savefail: 2, savebegin: 6, saveend: 6, crash: 5, failover: 3,
+	return hWeights{deliver: 46, ack: 22, save: 12, savefail: 2, savebegin: 6, saveend: 6, crash: 5, failover: 3, end: 4,
 		absorbed: 20, outside: 5, maxVb: scale(5, 12), minOps: 1, maxOps: scale(70, 250)}
 }
 
